@@ -7,6 +7,13 @@ CHECKS = {
  "C01": ("proof for the data path: field decoding, sector walk, volume window", "name lookup/mount and the type/list/dump renderings are outside the verified set (DESIGN.md C01)"),
  "C02": ("proof for field decoding and sign extension", "cat layout/ordering, show-titles, .inf line outside the verified set so far (DESIGN.md C02)"),
  "C03": ("proof: table lemma, line lemmas against the doc-derived monitor, framing lemma over an unbounded ghost file", "stdio model, token oracle from the pinned golden map, files <= 16 MiB"),
+ "C04": ("proof: FileView position formula per (take, leave) geometry, byte offset of container sectors", "view constructors and geometry selection outside the verified set so far"),
+ "C07": ("proof of function-level safety for the extracted parsers on arbitrary bytes (reduced scope, see DESIGN.md C07)", "whole-program clause (exit status, signals) is outside any contract"),
+ "C12": ("proof of path confinement for extract-files", "read-only-ness of images is a fact about library calls, outside contracts"),
+ "C13": ("proof for the HDFS/Watford probes and their read-set", "Opus probe, geometry selection outside the verified set"),
+ "C14": ("proof for the used/free computation of `free`", "space, sector-map, extract-unused not under contract yet"),
+ "C15": ("proof for the wildcard -> ERE translation under stated POSIX axioms", "regex engine assumed; name comparison helpers not extractable"),
+ "C16": ("proof for drive-number arithmetic and check_sequence_fits", "connect_drives, mount, MMB history clause outside so far"),
  "C08": ("proof: safety obligations of every basic/ function for arbitrary bytes, exit status in {0,1}, non-zero => diagnostic", "libc modelled (stdio, getopt, strtol, strcmp); <= 64 argv words"),
  "C09": ("proof: framing automaton, no-invention precondition on decode_line, token rejection", "stated allowances (empty file, trailing bytes after LE marker, 0D FF xx)"),
  "C11": ("proof for bbcbasic_to_text under the strict write-failure model", "dfs half not yet under contract; -D dump contract assumed"),
@@ -17,7 +24,7 @@ NA = {
  "C18": "relational two-run property about iostream formatting inside functions that cannot be extracted; the extractor drops `if (verbose)` blocks by rule, so the verified text cannot speak about them (DESIGN.md C18)",
 }
 PENDING = {k: "contract not implemented yet (see DESIGN.md section 3 for the plan)" for k in
-           ["C04", "C05", "C06", "C07", "C10", "C12", "C13", "C14", "C15", "C16"]}
+           ["C05", "C06", "C10"]}
 def main():
     checks = []
     for pid in sorted(CHECKS):
